@@ -343,7 +343,7 @@ def _coercion(ctx: Ctx) -> None:
             try:
                 sch = schema_of(v, env)
             except _Raises:
-                return None
+                return "raise"
             if sch is None:
                 raise AnalysisError(f"C10: cannot model `{txt(st)[:70]}` in _coerce_input_batch")
             set_batch(env, sch)
